@@ -56,7 +56,9 @@ def qr_case(draw, tier, shard=0, nshards=1):
     kind = draw(st.sampled_from(kinds))
     norb, nelec = draw(st.sampled_from(QR_SHAPES[kind]))
     params = draw(gens.trial_params(kind, norb, nelec))
-    restricted = kind in gens.RESTRICTED_ONLY or (kind == "rhf" and draw(st.booleans()))
+    # the restricted container (one matrix, the down determinant is its leading columns) also serves open-shell uhf trials: there the
+    # re-orthonormalisation must keep the span of the *leading* columns, i.e. be triangular
+    restricted = kind in gens.RESTRICTED_ONLY or (kind in ("rhf", "uhf") and draw(st.booleans()))
     nw = draw(st.integers(1, 3))
     ws = [draw(gens.walker(norb, nelec, restricted=restricted)) for _ in range(nw)]
     ham = draw(gens.hamiltonian(norb, spin_dependent=False))
@@ -82,7 +84,7 @@ def qr_body(ctx, case):
         ctx.count("rejected:walker-rank-deficient")
         hypothesis.assume(False)
     nonorth = any(np.max(np.abs(a.conj().T @ a - np.eye(a.shape[1]))) > 1e-3 for a in list(ups) + list(dns) if a.shape[1])
-    ctx.case(case, nontrivial=nonorth and max(nelec) >= 2, classes=["qr:" + kind, "container:" + ("array" if restricted else "list"), "via:" + case["via"], f"n_walkers={nw}"])
+    ctx.case(case, nontrivial=nonorth and max(nelec) >= 2, classes=["qr:" + kind, "container:" + ("array" if restricted else "list") + (":open-shell" if nelec[0] != nelec[1] else ""), "via:" + case["via"], f"n_walkers={nw}"])
     trial, wd, extra = gens.build_trial(kind, norb, nelec, case["params"])
     H, hd = gens.build_ham(norb, case["ham"], trial, wd)
     try:
